@@ -975,6 +975,10 @@ fn add_jitter(delay: &u64) -> Duration {
 
     // Calculate jitter as a random value in the range of +/- MAX_JITTER_PERCENT of the delay.
     let max_jitter = delay.saturating_mul(MAX_JITTER_PERCENT * 2) / 100;
+    // Delays of less than 3ms are too small to jitter, use them as they are.
+    if max_jitter == 0 {
+        return Duration::from_millis(*delay);
+    }
     #[cfg(not(iroh_verif))]
     let jitter = rand::random::<u64>() % max_jitter;
     #[cfg(iroh_verif)]
